@@ -104,6 +104,7 @@ class ConstantFolder(BlockPass):
             else:
                 if (
                     isinstance(instruction, ir.Binop)
+                    and not isinstance(instruction.ty, ir.FloatingPointTyp)
                     and isinstance(instruction.a, ir.Binop)
                     and instruction.a.operation == "+"
                     and self.is_const(instruction.a.b)
@@ -114,7 +115,10 @@ class ConstantFolder(BlockPass):
                     a = self.eval_const(instruction.a.b)
                     b = self.eval_const(instruction.b)
                     assert a.ty is b.ty
-                    cn = ir.Const(a.value + b.value, "new_fold", a.ty)
+                    value = a.value + b.value
+                    if a.ty.is_integer:
+                        value = correct(value, a.ty)
+                    cn = ir.Const(value, "new_fold", a.ty)
                     block.insert_instruction(
                         cn, before_instruction=instruction
                     )
@@ -125,6 +129,7 @@ class ConstantFolder(BlockPass):
                     count += 1
                 elif (
                     isinstance(instruction, ir.Binop)
+                    and not isinstance(instruction.ty, ir.FloatingPointTyp)
                     and isinstance(instruction.a, ir.Binop)
                     and instruction.a.operation == "-"
                     and self.is_const(instruction.a.b)
@@ -135,7 +140,10 @@ class ConstantFolder(BlockPass):
                     a = self.eval_const(instruction.a.b)
                     b = self.eval_const(instruction.b)
                     assert a.ty is b.ty
-                    cn = ir.Const(a.value + b.value, "new_fold", a.ty)
+                    value = a.value + b.value
+                    if a.ty.is_integer:
+                        value = correct(value, a.ty)
+                    cn = ir.Const(value, "new_fold", a.ty)
                     block.insert_instruction(
                         cn, before_instruction=instruction
                     )
